@@ -4,6 +4,7 @@ import DivanModel.Model.Recording
 import DivanModel.Model.SampleLoop
 import DivanModel.Model.SoftFloat
 import DivanModel.Model.Stats
+import DivanModel.Model.Counters
 /-! Bench lab handler (`bench`): simulates the scripted virtual clocks thread by thread, feeds the
     resulting rounds to the round-loop model (`RoundLoop.continues` / `stepRound`), emits the
     per-thread event traces of the sample model (`SampleLoop.trace`) and computes the statistics the
@@ -46,6 +47,7 @@ structure Req where
   ic2 : Bool := false          -- a second input counter (bytes) next to the items counter
   zre : Bool := false          -- every call reallocates a block to its own size: one grow of 0 bytes
   bar : Bool := false           -- barrier waits are part of the traces (instrumented Barrier)
+  cafter : Bool := false        -- `ic=7`: `.input_counter(items) .counter(ItemsCount::new(1000))`: a constant of the same kind set last
   deriving Repr, Inhabited
 
 def optNat (s : String) : Option (Option Nat) := if s = "-" then some none else s.toNat?.map some
@@ -67,8 +69,8 @@ def parseReq (args : List String) : Option Req := do
       | "maxt" => r := { r with maxt := ← optNat v }
       | "mint" => r := { r with mint := ← optNat v }
       | "sk" => r := { r with sk := (← optNat v).map (· = 1) }
-      | "ic" => r := { r with ic := v ≠ "0", ic2 := v = "2",
-                               cia := match v.toNat? with | some n => if n ≥ 3 then some (n - 3) else none | none => none }
+      | "ic" => r := { r with ic := v ≠ "0", ic2 := v = "2", cafter := v = "7",
+                               cia := match v.toNat? with | some n => if n ≥ 3 ∧ n ≤ 6 then some (n - 3) else none | none => none }
       | "items" => r := { r with items := ← optNat v }
       | "cost" =>
         match (v.splitOn ",").mapM String.toNat? with
@@ -98,7 +100,15 @@ def parseReq (args : List String) : Option Req := do
         | _ => none
       | _ => none
     | _ => none
-  some r
+  -- which counter is in force for the items kind is decided by the `CounterCollection` model
+  -- (Props/C05Counters: the last configuration call of a kind wins, constants from options first)
+  let hasInputs := r.ep ≠ "bench" ∧ r.ep ≠ "bench_local"
+  let kind := r.cia.getD 3
+  let cfgs : List Counters.Cfg :=
+    (if r.ic ∧ hasInputs then [Counters.Cfg.input kind] else []) ++ (if r.cafter ∧ hasInputs then [Counters.Cfg.counter 3 1000] else [])
+  let coll := cfgs.foldl Counters.applyCfg (Counters.ofOptions fun k => if k = 3 then r.items else none)
+  some { r with ic := r.ic ∧ (!hasInputs ∨ (coll kind).byInput),
+                items := if (coll 3).byInput then r.items else (coll 3).counts.head? }
 
 def Req.hasInputs (r : Req) : Bool := r.ep ≠ "bench" ∧ r.ep ≠ "bench_local"
 def Req.isLocal (r : Req) : Bool := r.ep = "bench_local" ∨ r.ep = "local_values" ∨ r.ep = "local_refs"
@@ -604,6 +614,17 @@ def handle (args : List String) (obs : String) : Option Reply := do
       (if !okS then ["[C05][C19] the counter figure under slowest is not that of a sample with the largest duration"] else []) ++
       (if mean ≠ c3.getD 3 0 then ["[C05][C19] the counter mean is not the mean over all recorded samples (counts of discarded rounds must not be in it)"] else [])
      else []) ++
+    -- C05: a constant counter (from options or `Bencher::counter`, not replaced by an input counter later) is
+    -- shown as that constant in all four columns, whatever its magnitude and however many samples there are
+    (match r.items with
+     | some v =>
+       if (r.ic ∧ r.hasInputs) ∨ r.isTest ∨ panicky ∨ noRun then [] else
+       let c3 := (((implStats.splitOn " ").find? (·.startsWith "c3:")).map fun w => ((w.drop 3).toString.splitOn ",").filterMap String.toNat?).getD []
+       if c3.length = 4 ∧ c3 ≠ [v, v, v, v] then
+         [s!"[C05] a constant counter of {v} items is not shown as {v} under fastest / slowest / median / mean (got {c3})" ++
+          (if r.cafter then ": the constant set after an input counter of the same kind did not replace it (F10)" else "")]
+       else []
+     | none => []) ++
     -- C19/C03: every reported sample used the final sample size; iterations = samples x that size
     (if !r.isTest ∧ !panicky ∧ !noRun ∧ implStats ≠ "hang" ∧ implStats ≠ "panic" then
       let perT := (List.range T).map fun t =>
